@@ -1,11 +1,12 @@
 package hist
 
 import (
-
 	"fmt"
 	"sort"
+	"strconv"
 	"strings"
 	"sync"
+	"time"
 
 	mqtt "github.com/mochi-mqtt/server/v2"
 	"github.com/mochi-mqtt/server/v2/packets"
@@ -380,4 +381,52 @@ func filterShapeFull(f, topic string) string {
 		sh += "-dollar"
 	}
 	return sh
+}
+
+// sysTopicsCheck (C38, end of history): after the broker has published its $SYS values, the payloads of the
+// four state counters must equal the actual state (probed). The $SYS messages are themselves retained, so the
+// retained count is accepted with or without them.
+func (s *Sim) sysTopicsCheck() {
+	if !s.Opt.CheckStats || s.Incon != "" || s.nmsg%3 != 0 {
+		return // every third history (by its message count) ends with the $SYS publication
+	}
+	m := s.M
+	if !s.B.Quiesce(10 * time.Second) {
+		return
+	}
+	before := s.B.S.VerifActualCounts()
+	s.B.S.VerifPublishSysTopics()
+	s.B.Quiesce(10 * time.Second)
+	after := s.B.S.VerifActualCounts()
+	open := 0
+	for _, sl := range s.Slots {
+		if sl.connected && sl.sawConnack && sl.Conn != nil {
+			if c, _ := sl.Conn.MC.BrokerClosed(); !c && !sl.Conn.Done() {
+				open++
+			}
+		}
+	}
+	get := func(t string) (int64, bool) {
+		pk, ok := s.B.S.Topics.Retained.Get(t)
+		if !ok {
+			return 0, false
+		}
+		v, err := strconv.ParseInt(string(pk.Payload), 10, 64)
+		return v, err == nil
+	}
+	check := func(topic string, ok1, ok2 int64) {
+		v, ok := get(topic)
+		m.count("sys_topic_payloads_checked")
+		if !ok {
+			m.flag("C38/sys-topic-payload", map[string]string{"topic": topic, "missing": "true"}, "%s is not published (or not a number) after the $SYS publication", topic)
+			return
+		}
+		if v != ok1 && v != ok2 {
+			m.flag("C38/sys-topic-payload", map[string]string{"topic": topic}, "%s carries %d, actual value %d", topic, v, ok1)
+		}
+	}
+	check("$SYS/broker/clients/connected", int64(open), int64(open))
+	check("$SYS/broker/subscriptions", int64(before.Subscriptions), int64(before.Subscriptions))
+	check("$SYS/broker/messages/inflight", int64(before.Inflight), int64(after.Inflight))
+	check("$SYS/broker/retained", int64(before.Retained), int64(after.Retained))
 }
